@@ -319,6 +319,8 @@ fn gen_batch(r: &mut Rng, table: &str, rows: usize, start: i64) -> EventBuffer {
             ("n".to_string(), api::AnyVal::Int(*r.pick(&[0i64, 1, -7, 300, 70000, 1 << 40]))),
             ("f".to_string(), api::AnyVal::Float(*r.pick(&[0.0f64, -0.0, 1.5, -2.25, 1e300, f64::INFINITY, f64::NEG_INFINITY, 3.0, 0.1]))),
             ("s".to_string(), api::AnyVal::Str(r.pick(&["", "a", "b", "ünï", "long string value"]).to_string())),
+            // extremes, only ever projected: the engine's NULL marker value, i64::MIN, beyond 2^53
+            ("m".to_string(), api::AnyVal::Int(*r.pick(&[i64::MAX, i64::MAX - 1, i64::MIN, (1 << 53) + 1, -1, 0]))),
             ("timestamp".to_string(), api::AnyVal::Float(1000.0 + (start + i as i64) as f64)),
         ];
         if with_opt && r.chance(1, 2) {
@@ -331,7 +333,7 @@ fn gen_batch(r: &mut Rng, table: &str, rows: usize, start: i64) -> EventBuffer {
     EventBuffer { tables }
 }
 
-const QUERIES: [&str; 16] = [
+const QUERIES: [&str; 18] = [
     "SELECT id, n, f, s FROM t ORDER BY id",
     "SELECT id, opt FROM t ORDER BY id",
     "SELECT s, COUNT(1), SUM(n) FROM t ORDER BY s",
@@ -340,6 +342,8 @@ const QUERIES: [&str; 16] = [
     "SELECT id FROM t ORDER BY id DESC LIMIT 3",
     "SELECT MAX(n), MIN(n), COUNT(id) FROM t",
     "SELECT id, nosuchcolumn FROM t ORDER BY id LIMIT 4",
+    "SELECT id, m FROM t ORDER BY id",
+    "SELECT m, id FROM t WHERE id < 5 ORDER BY id",
     // failing queries
     "SELECT id FROM nosuchtable",
     "SELEC id FROM t",
